@@ -203,6 +203,9 @@ fn check_disturbed<'a>(b: &'a AllBuilder<'a>, c: &Case, params: &[(Vec<(u32, u32
         dist.push((format!("and(f, x{})", v), v, 3));
     }
     dist.push(("negate(f)".to_string(), 0, 4));
+    dist.push(("builder statistics (stats, num_recursive_calls)".to_string(), 0, 5));
+    dist.push(("count_nodes / model count queries on f".to_string(), 0, 6));
+    dist.push(("another object of the library created, used and dropped".to_string(), c.k + c.f as usize, 7));
     for (name, v, kind) in dist.iter() {
         let r = guarded(|| {
             let first = b.smooth(p, c.k);
@@ -212,7 +215,19 @@ fn check_disturbed<'a>(b: &'a AllBuilder<'a>, c: &Case, params: &[(Vec<(u32, u32
                 1 => b.condition(p, lbl, false),
                 2 => b.exists(p, lbl),
                 3 => b.and(p, b.var(lbl, true)),
-                _ => b.negate(p),
+                4 => b.negate(p),
+                5 => {
+                    let _ = (b.stats(), b.num_recursive_calls());
+                    p
+                }
+                6 => {
+                    let _ = p.count_nodes();
+                    p
+                }
+                _ => {
+                    crate::props::bddutil::interloper(*v);
+                    p
+                }
             };
             (first, b.smooth(p, c.k))
         });
